@@ -273,6 +273,12 @@ func propC11(rec *stats.Rec, sc *scratch, exclude map[string]bool) func(t *rapid
 				_ = os.Remove(p)
 				record(t, fmt.Sprintf("remove %s", rel(p)))
 			},
+			"queryOnly": func(t *rapid.T) { // always enabled: a state in which every directory is missing leaves only
+				// mkdirMissing, and rapid gives up on a step in which every drawn action skips
+				_ = cache.ListDevices()
+				history = append(history, c11Step{"queryOnly", "query"})
+				labels["op:queryOnly"] = true
+			},
 			"mkdirMissing": func(t *rapid.T) {
 				var missing []string
 				for _, d := range dirs {
